@@ -17,6 +17,14 @@ the Warshall oracle of vp/graphs.py on that model.
   ['subgraph', xs]       get_subgraph(xs)
   ['clone']              clone(): equal now
   ['fork']               continue on a clone; the original must stay as it was
+  ['fork_sub', xs]       continue on get_subgraph(xs); the original must stay as it was
+  ['fork_rev']           continue on get_reversed_graph(); the original must stay as it was
+  ['back']               put the current graph aside (it must stay as it is) and continue on the graph
+                         that was put aside first
+
+With inp['tamper'] the caller also USES what it got: every returned component list and reachable
+set is modified (an element appended / added, then emptied) before the next step.  Those are the
+caller's own objects; later answers must not depend on what became of them.
 """
 from . import graphs as G
 
@@ -55,7 +63,27 @@ class Model(object):
 def valid_ops(ops):
     """Is the history applicable (no duplicate node / edge additions)?"""
     m = Model()
+    kept = []
     for op in ops:
+        if op[0] == 'fork':
+            kept.append(m.copy())
+        elif op[0] == 'fork_sub':
+            kept.append(m)
+            xs = [x for x in op[1] if x in m.nodes]
+            sm = Model()
+            sm.nodes = list(xs)
+            sm.edges = set((a, b) for (a, b) in m.edges if a in xs and b in xs)
+            m = sm
+        elif op[0] == 'fork_rev':
+            kept.append(m)
+            rm = Model()
+            rm.nodes = list(m.nodes)
+            rm.edges = set((b, a) for (a, b) in m.edges)
+            m = rm
+        elif op[0] == 'back':
+            if kept:
+                kept.append(m)
+                m = kept.pop(0)
         if op[0] == 'node':
             if op[1] in m.nodes:
                 return False
@@ -101,7 +129,8 @@ def _scc_problem(comps, m, nm, nodes=None, edges=None):
     return None
 
 
-OPS = ('node', 'edge', 'scc', 'scc_partial', 'scc_of', 'reach', 'reverse', 'subgraph', 'clone', 'fork')
+OPS = ('node', 'edge', 'scc', 'scc_partial', 'scc_of', 'reach', 'reverse', 'subgraph', 'clone', 'fork',
+       'fork_sub', 'fork_rev', 'back')
 
 
 def run(inp):
@@ -111,6 +140,7 @@ def run(inp):
     nm = G.NAMINGS[inp.get('naming', 'int')]
     g = DiGraph()
     m = Model()
+    tamper = bool(inp.get('tamper'))
     kept = []            # (graph object, its model) that must stay as they are: forked originals
     for op in inp['ops']:
         if op[0] not in OPS:
@@ -128,9 +158,19 @@ def run(inp):
                 m.add_node(op[2])
                 m.edges.add((op[1], op[2]))
             elif o == 'scc':
-                p = _scc_problem(compute_SCCs(g), m, nm)
+                comps = list(compute_SCCs(g))
+                p = _scc_problem(comps, m, nm)
                 if p:
                     return (k,) + p
+                if tamper:
+                    for c in comps:
+                        if isinstance(c, list):
+                            c.append('junk')
+                            del c[:]
+                        elif isinstance(c, set):
+                            c.add('junk')
+                            c.clear()
+                    del comps[:]
             elif o == 'scc_partial':
                 it = compute_SCCs(g)
                 got = []
@@ -163,6 +203,9 @@ def run(inp):
                 if set(got) != want or len(list(got)) != len(set(got)):
                     return (k, 'get_reachable_set_from(%r)' % ([nm(x) for x in xs],),
                             sorted(map(repr, want)), sorted(map(repr, got)))
+                if tamper and isinstance(got, set):
+                    got.add('junk')
+                    got.clear()
             elif o == 'reverse':
                 r = g.get_reversed_graph()
                 rm = Model()
@@ -188,6 +231,25 @@ def run(inp):
                 c = g.clone()
                 kept.append((g, m.copy()))
                 g = c
+            elif o == 'fork_sub':
+                xs = [x for x in op[1] if x in m.nodes]
+                c = g.get_subgraph([nm(x) for x in xs])
+                kept.append((g, m))
+                sm = Model()
+                sm.nodes = list(xs)
+                sm.edges = set((a, b) for (a, b) in m.edges if a in xs and b in xs)
+                g, m = c, sm
+            elif o == 'fork_rev':
+                c = g.get_reversed_graph()
+                kept.append((g, m))
+                rm = Model()
+                rm.nodes = list(m.nodes)
+                rm.edges = set((b, a) for (a, b) in m.edges)
+                g, m = c, rm
+            elif o == 'back':
+                if kept:
+                    kept.append((g, m))
+                    g, m = kept.pop(0)
         except Exception as e:
             return (k, 'operation %r' % (op,), 'no exception', 'raised %s: %s' % (type(e).__name__, e))
         # the object itself after every step: edits add exactly what was asked, queries nothing
@@ -253,6 +315,7 @@ def st_history(queries, max_nodes=7, max_ops=40):
         n = draw(hs.integers(1, max_nodes))
         nops = draw(hs.integers(1, max_ops))
         m = Model()
+        kept = []
         ops = []
         subs = hs.lists(hs.integers(0, n - 1), max_size=n, unique=True)
         for _ in range(nops):
@@ -284,9 +347,34 @@ def st_history(queries, max_nodes=7, max_ops=40):
                 ops.append([q, kd, draw(subs) if kd == 'subgraph' else []])
             elif q in ('reach', 'subgraph'):
                 ops.append([q, draw(subs)])
+            elif q == 'fork':
+                kd = draw(hs.sampled_from(['fork', 'fork_sub', 'fork_rev', 'back', 'back']))
+                if kd == 'fork':
+                    kept.append(m.copy())
+                    ops.append(['fork'])
+                elif kd == 'fork_sub':
+                    xs = [x for x in draw(subs) if x in m.nodes]
+                    kept.append(m)
+                    sm = Model()
+                    sm.nodes = list(xs)
+                    sm.edges = set((a, b) for (a, b) in m.edges if a in xs and b in xs)
+                    m = sm
+                    ops.append(['fork_sub', xs])
+                elif kd == 'fork_rev':
+                    kept.append(m)
+                    rm = Model()
+                    rm.nodes = list(m.nodes)
+                    rm.edges = set((b, a) for (a, b) in m.edges)
+                    m = rm
+                    ops.append(['fork_rev'])
+                elif kept:
+                    kept.append(m)
+                    m = kept.pop(0)
+                    ops.append(['back'])
             else:
                 ops.append([q])
         ops.append([draw(hs.sampled_from([q for q in queries if q in ('scc', 'reverse', 'clone')] or ['scc']))])
-        return {'naming': draw(hs.sampled_from(['int', 'str', 'tuple', 'mixed', 'opaque'])), 'ops': ops}
+        return {'naming': draw(hs.sampled_from(['int', 'str', 'tuple', 'mixed', 'opaque'])), 'ops': ops,
+                'tamper': draw(hs.booleans())}
 
     return hist()
